@@ -161,6 +161,13 @@ def run_suite(case: dict, ctx: Ctx, prop: str) -> None:
     for e in sorted(set(merr))[:5]:
         ctx.event("suite-monitor-error:" + e[:80])
     ctx.event("suite-processes-reporting", nfiles)
+    capped = [k for k, v in (info.get("scripts") or {}).items() if v == "capped"] if isinstance(info, dict) else []
+    if total == 0 and capped and len(capped) == len(info.get("scripts") or {}):
+        # every script of this borrowed workload ran into its time cap before it reached the monitored call (a loaded machine): the
+        # workload contributes nothing; the property's own scenarios (with their minimum numbers of oracle evaluations) still decide
+        ctx.event("suite-workload-capped-before-any-observation")
+        ctx.describe(f"suite/{case['workload']}", False, workload=case["workload"], monitor=mon, evaluations=0, capped=capped[:6])
+        return
     if total == 0:
         # the monitor was never reached by this workload: nothing was decided
         raise RuntimeError(f"suite workload {case['workload']} produced no observation for {prop} (calls={calls}, info={str(info)[:300]})")
